@@ -951,6 +951,11 @@ func (x *Exec) builderCall(st *State, name string, args []Val, site string) Val 
 }
 
 func (x *Exec) builderWrite(st *State, a *Addr, cur Val, kind, operand, site string) {
+	evName := "Builder.WriteByte"
+	if kind == "s" {
+		evName = "Builder.WriteString"
+	}
+	x.traceCall(st, evName, []Val{{}, {S: operand}}, site)
 	old := x.name(st, "out", cur)
 	nv := x.declConst(st, "out", "Out")
 	x.assume(st, fmt.Sprintf("(= %s (o_%s %s %s))", nv, kind, old.S, operand))
@@ -1140,7 +1145,7 @@ func (w *World) mutableCapture(top *ssa.Function, name string) bool {
 	return scan(top)
 }
 
-var traceBuiltins = map[string]bool{"ncalls": true, "callArg": true, "callResult": true, "callOrder": true, "atCall": true, "traceSeq": true, "fullSeq": true}
+var traceBuiltins = map[string]bool{"ncalls": true, "callArg": true, "callResult": true, "callOrder": true, "atCall": true, "traceSeq": true, "fullSeq": true, "writeSeq": true}
 
 // usesTrace: the clause mentions the ghost call trace of its own unit.
 func usesTrace(cl *Clause) bool {
